@@ -43,7 +43,17 @@ class Creators:
     Gfa instances, which are not complete.
     """
     if self._version is None:
+      # called directly, with the version still undecided: if a queued line
+      # is refused, the Gfa is left as it was
+      saved = self.__save_state_unknown_version()
       self._version = self._version_guess
+      try:
+        while self._line_queue:
+          self.add_line(self._line_queue.pop(0))
+      except:
+        self.__restore_state_unknown_version(saved)
+        raise
+      return
     while self._line_queue:
       self.add_line(self._line_queue.pop(0))
 
